@@ -26,7 +26,7 @@ structure StaticEq (w w' : World Val Err Op) : Prop where
   consumers : w'.consumers = w.consumers
   nwatch : w'.nwatch = w.nwatch
   cellsLen : w'.cells.length = w.cells.length
-  stat : ∀ i, (w'.nodes[i]?).map Node.toNStat = (w.nodes[i]?).map Node.toNStat
+  stat : ∀ i, (w'.nodes[i]?).map (fun (nd : Node Val Err Op) => nd.toNStat) = (w.nodes[i]?).map (fun (nd : Node Val Err Op) => nd.toNStat)
 
 theorem StaticEq.refl (w : World Val Err Op) : StaticEq w w :=
   ⟨rfl, rfl, rfl, rfl, rfl, rfl, rfl, fun _ => rfl⟩
